@@ -438,6 +438,8 @@ class FnTranslator:
                 return False
             if fu in ("np.logspace", "np.arange"):
                 return True
+            if fu == "np.array" and e.args and isinstance(e.args[0], ast.List):
+                return True
             parts = list(e.args) + [k.value for k in e.keywords]
             if isinstance(e.func, ast.Attribute) and not isinstance(e.func.value, ast.Name):
                 parts.append(e.func.value)
@@ -476,6 +478,12 @@ class FnTranslator:
             if n.kind != "N":
                 raise Unsupported(f"line {e.lineno}: np.logspace count")
             return Val(f"(Arr.memo (Np.logspace {a.code} {b.code} {n.code}))", "A")
+        if (isinstance(e, ast.Call) and ast.unparse(e.func) == "np.array" and len(e.args) == 1 and isinstance(e.args[0], ast.List)
+                and {k.arg: ast.unparse(k.value) for k in e.keywords} == {"dtype": "np.int64"}
+                and all(isinstance(x, ast.Constant) and isinstance(x.value, int) and not isinstance(x.value, bool) for x in e.args[0].elts)):
+            vals = [x.value for x in e.args[0].elts]
+            lit = "[" + ", ".join(f"({v} : Int)" for v in vals) + "]"
+            return Val(f"(⟨{len(vals)}, fun i_ => ({lit} : List Int).getD i_ 0⟩ : Arr Int)", "AZ")
         if isinstance(e, ast.ListComp):
             # [vec_expr(k, s, …) for k, s, … in zip(K, S, …)]  ->  one vector per position j_
             if len(e.generators) != 1 or e.generators[0].ifs or e.generators[0].is_async:
@@ -1423,6 +1431,68 @@ def gen_dsp(repo: str = REPO) -> Tuple[str, List[str]]:
     return out, errors
 
 
+def gen_analysis(known: Dict[str, FnInfo], repo: str = REPO) -> Tuple[str, List[str]]:
+    """the request arithmetic of SpectrumAnalyzer.compute_single_bin: the segmentation statement (`if self.nx == segL: … else: …`,
+    giving navg and the segment starts) as a function of (nx, segL, final_olap), and the digital frequency `omega` as a function of
+    (freq, fs). `self.nx`, `self.fs`, `self.config['final_olap']` become parameters, `_np` is NumPy."""
+    path = os.path.join(repo, "speckit/analysis.py")
+    out = HEADER.format(src="speckit/analysis.py", sha=sha_of(path)).replace("import SpecKitV.Num\n", "import SpecKitV.Num\nimport SpecKitV.Gen.Utils\n")
+    errors: List[str] = []
+    try:
+        tree = ast.parse(open(path).read())
+        meth = None
+        for c in tree.body:
+            if isinstance(c, ast.ClassDef) and c.name == "SpectrumAnalyzer":
+                for m in c.body:
+                    if isinstance(m, ast.FunctionDef) and m.name == "compute_single_bin":
+                        meth = m
+        if meth is None:
+            raise Unsupported("SpectrumAnalyzer.compute_single_bin not found")
+        seg = [st for st in meth.body if isinstance(st, ast.If) and ast.unparse(st.test) == "self.nx == segL"]
+        om = [st for st in meth.body if isinstance(st, ast.Assign) and len(st.targets) == 1 and ast.unparse(st.targets[0]) == "omega"]
+        if len(seg) != 1 or len(om) != 1:
+            raise Unsupported(f"compute_single_bin: segmentation statements found {len(seg)}, omega assignments {len(om)} (expected 1 and 1)")
+
+        class Rw(ast.NodeTransformer):
+            def visit_Attribute(self, n):
+                self.generic_visit(n)
+                if isinstance(n.value, ast.Name) and n.value.id == "self" and n.attr in ("nx", "fs"):
+                    return ast.copy_location(ast.Name(id=n.attr, ctx=ast.Load()), n)
+                return n
+
+            def visit_Subscript(self, n):
+                if ast.unparse(n) == "self.config['final_olap']":
+                    return ast.copy_location(ast.Name(id="final_olap", ctx=ast.Load()), n)
+                return self.generic_visit(n)
+
+            def visit_Name(self, n):
+                if n.id == "_np":
+                    return ast.copy_location(ast.Name(id="np", ctx=n.ctx), n)
+                return n
+        mkargs = lambda names: ast.arguments(posonlyargs=[], args=[ast.arg(arg=a) for a in names], kwonlyargs=[], kw_defaults=[], defaults=[])
+        f1 = ast.FunctionDef(name="single_bin_segmentation", args=mkargs(["nx", "segL", "final_olap"]),
+                             body=[Rw().visit(seg[0]), ast.parse("return (navg, starts)").body[0]], decorator_list=[], lineno=seg[0].lineno)
+        f2 = ast.FunctionDef(name="single_bin_omega", args=mkargs(["freq", "fs"]),
+                             body=[ast.Return(value=Rw().visit(om[0].value))], decorator_list=[], lineno=om[0].lineno)
+        for fnew, (a, b) in ((f1, (seg[0].lineno, seg[0].end_lineno)), (f2, (om[0].lineno, om[0].end_lineno))):
+            ast.fix_missing_locations(fnew)
+            fnew.lineno, fnew.end_lineno = a, b
+            fnew.__dict__["_file"] = path
+        tr = FnTranslator(f1, {"nx": "Z", "segL": "Z", "final_olap": "R", "navg": "Z", "olap": "R"}, known, "single_bin_segmentation")
+        tr.vector_mode = True
+        text, _ = tr.translate()
+        out += text + "\n"
+        tr = FnTranslator(f2, {"freq": "R", "fs": "R"}, known, "single_bin_omega")
+        text, _ = tr.translate()
+        out += text + "\n"
+    except Unsupported as ex:
+        errors.append(f"compute_single_bin: {ex}")
+        msg = str(ex).replace("-/", "- /")
+        out += f"/- UNSUPPORTED compute_single_bin: {msg} -/\ndef compute_single_bin_UNSUPPORTED : Nat := translation_failed_compute_single_bin\n\n"
+    out += "end Gen\n"
+    return out, errors
+
+
 def regenerate(repo: str = REPO) -> Dict[str, List[str]]:
     """regenerate every Gen file from the current source; returns {region: [errors]}"""
     report: Dict[str, List[str]] = {}
@@ -1439,6 +1509,9 @@ def regenerate(repo: str = REPO) -> Dict[str, List[str]]:
     text, _k, errs = gen_utils(repo)
     write_if_changed(os.path.join(GEN_DIR, "Utils.lean"), text)
     report["Utils"] = errs
+    text, errs = gen_analysis(_k, repo)
+    write_if_changed(os.path.join(GEN_DIR, "Analysis.lean"), text)
+    report["Analysis"] = errs
     text, errs = gen_noise(repo)
     write_if_changed(os.path.join(GEN_DIR, "Noise.lean"), text)
     report["Noise"] = errs
